@@ -1,7 +1,7 @@
 (* GeneratedOk.v — obligations the facts regenerated from /repo must satisfy.
    Every lemma here is re-checked on every run against the fresh Gen/Generated.v; the property
    theorems depend on them.  A lemma that stops compiling names the fact that moved. *)
-From VF Require Import Model.ExprSpec Gen.Generated.
+From VF Require Import Model.ExprSpec Model.TypeSpec Gen.Generated.
 Open Scope string_scope. Open Scope list_scope. Open Scope Z_scope.
 
 Lemma facts_recognised : unrecognised = false.
@@ -34,3 +34,24 @@ Definition op_keys : list string := map fst binary_ops ++ map fst unary_ops.
 (* every operator key (incl. the marker) is neither a number nor an identifier *)
 Lemma op_keys_not_number : forallb (fun t => negb (is_number t) && negb (is_ident t)) op_keys = true.
 Proof. vm_compute. reflexivity. Qed.
+
+(* ---- built-in types, aliases, byte orders (C04 C05 C13 C16) ---- *)
+Lemma resolve_bound_is_10 : resolve_bound = 10.
+Proof. reflexivity. Qed.
+(* sizes, signedness, alignment of every built-in; pack characters agree with them; every alias resolves
+   (within the bound) to the conventional base type; no unaccounted entries *)
+Lemma type_table_ok : check_type_table (Z.to_nat resolve_bound) type_table = true.
+Proof. vm_compute. reflexivity. Qed.
+Lemma endianness_map_ok :
+  endianness_map = [("@", ENative); ("=", ENative); ("<", LE); (">", BE); ("!", BE); ("network", BE)].
+Proof. reflexivity. Qed.
+Lemma wchar_encoding_map_ok : wchar_encoding_map = [("@", ENative); ("=", ENative); ("<", LE); (">", BE); ("!", BE)].
+Proof. reflexivity. Qed.
+
+(* ---- utils (C19) ---- *)
+Lemma printable_is_ascii_32_126 : printable_codes = map Z.of_nat (seq 32 95).
+Proof. vm_compute. reflexivity. Qed.
+Lemma hexdump_constants : hexdump_row_width = 16 /\ hexdump_special_columns = [0; 7; 15].
+Proof. split; reflexivity. Qed.
+Lemma color_normal_is_escape : exists r, color_normal = String (ascii_of_nat 27) r.
+Proof. eexists. reflexivity. Qed.
